@@ -26,7 +26,10 @@ RULE = (
     "(group,name) and different version, or equal tuples; version sets: every subset (size<=3 quick, <=4 thorough) "
     "of a 3x3x2 version grid in every registration order, as entry points and via register_in_group; non-trivial "
     "= >=2 versions registered in non-ascending order; plus Hypothesis multi-name interleavings and the "
-    "entry-point-name codec; distinct by the enumerated tuple"
+    "entry-point-name codec; references of other groups; registering again and refused re-registration (also over "
+    "a not yet loaded entry point); version-less classes of every synthetic and installed group must refuse "
+    "subclassing however they were reached without a version (get, [], get/[] with the version-less class itself, "
+    "Fields.<x>.origin) and in any base position; distinct by the enumerated tuple"
 )
 ASSUMPTIONS = [
     "synthetic PluginGroup subclasses are constructed directly with EntryPoint objects (the documented "
